@@ -4,7 +4,18 @@ package slip
 
 import (
 	"strings"
+	"sync/atomic"
 )
+
+// classGeneration counts class registrations. Caches keyed by class name
+// compare it to notice that a class was defined or redefined.
+var classGeneration atomic.Uint64
+
+// ClassGeneration returns a number that changes whenever a class is
+// registered.
+func ClassGeneration() uint64 {
+	return classGeneration.Load()
+}
 
 // Class represents all class types.
 type Class interface {
